@@ -352,6 +352,17 @@ func c05ShrinkProgs() []c05ShrinkProg {
 		}
 		return v
 	})
+	recSlice := rapid.SliceOfDistinct(rapid.Custom(func(t *rapid.T) c05Rec {
+		var r c05Rec
+		for i := range r.flags {
+			r.flags[i] = rapid.Bool().Draw(t, "flag")
+		}
+		r.id = rapid.Int().Draw(t, "id")
+		return r
+	}), func(r c05Rec) int { return r.id })
+	evenStruct := rapid.Custom(func(t *rapid.T) c05Struct {
+		return c05Struct{A: rapid.SliceOf(rapid.Byte()).Draw(t, "A"), X: rapid.Int64().Draw(t, "X"), S: rapid.String().Draw(t, "S")}
+	}).Filter(func(v c05Struct) bool { return len(v.A)%2 == 0 })
 	var deepTree *rapid.Generator[int]
 	deepTree = rapid.Deferred(func() *rapid.Generator[int] {
 		return rapid.Custom(func(t *rapid.T) int {
@@ -405,6 +416,18 @@ func c05ShrinkProgs() []c05ShrinkProg {
 				t.Fatalf("unreachable")
 			}
 		}},
+		{"SliceOfDistinct of Custom records keyed by id, then a key", func(t *rapid.T) {
+			recs := recSlice.Draw(t, "recs")
+			key := rapid.Int().Draw(t, "key")
+			if (len(recs) >= 2 && key <= recs[0].id && recs[1].id >= 1000003) || (len(recs) == 1 && key == 1000003) {
+				t.Fatalf("bad: %d records", len(recs))
+			}
+		}},
+		{"filtered Custom struct {[]byte, int64, string}, failing on the int", func(t *rapid.T) {
+			if v := evenStruct.Draw(t, "v"); v.X >= 1000 {
+				t.Fatalf("X too large: %d", v.X)
+			}
+		}},
 		{"map with colliding keys, failing on size or on one entry", func(t *rapid.T) {
 			m := rapid.MapOfN(rapid.IntRange(0, 3), rapid.Uint8(), 0, 3).Draw(t, "m")
 			last := rapid.Bool().Draw(t, "last")
@@ -413,4 +436,15 @@ func c05ShrinkProgs() []c05ShrinkProg {
 			}
 		}},
 	}
+}
+
+type c05Rec struct {
+	flags [4]bool
+	id    int
+}
+
+type c05Struct struct {
+	A []byte
+	X int64
+	S string
 }
